@@ -7,6 +7,8 @@
   at every position and on byte flips, and must answer what the model answers.
 -/
 import ClairModel.Proofs.Framing
+import ClairModel.Proofs.FeedTransfer
+import ClairModel.Lib.Sm
 
 -- every variable of a property statement is bound explicitly: a misspelt name is an error, not a new variable
 set_option autoImplicit false
@@ -558,6 +560,412 @@ theorem damaged_feed_never_replaces_snapshot (step : σ → Byte → Step σ) (i
   rcases one_decode_never_subset step init sem d st k hst with h | h
   · left; rw [h]; rfl
   · right; rw [h]
+
+/-! ### HTTP framing: what the transport can and cannot detect -/
+
+section transfer
+open ClairModel.FeedTransfer
+variable {ρ : Type}
+
+/-- Whatever the framing and however the response ends, the reader of the body
+    sees a prefix of what the server wrote: transport damage is truncation
+    (plus a terminal), so the prefix theorems above apply to it. -/
+theorem transport_delivers_prefix (s : Script) : ∃ k, (delivered s).bytes = s.body.take k :=
+  delivered_prefix s
+
+/-- An honest Content-Length detects every short body, however the connection ends. -/
+theorem content_length_detects_short_body (body : Bytes) (n : Nat) (fin : Fin)
+    (h : body.length < n) : (delivered ⟨body, .length n, fin⟩).term = .err := by
+  simp only [delivered]
+  rw [if_neg (by omega)]
+
+/-- A chunked body that does not end with its terminal chunk is an error. -/
+theorem chunked_abort_detected (body : Bytes) (fin : Fin) (h : fin ≠ .clean) :
+    (delivered ⟨body, .chunked, fin⟩).term = .err := by
+  simp [delivered, h]
+
+/-- A clean EOF from the transport means: the declared length was reached, or
+    the terminal chunk was seen, or the body was close-delimited and the
+    connection was closed in an orderly way. -/
+theorem clean_eof_classified (s : Script) (h : (delivered s).term = .eof) :
+    (∃ d, s.frame = .length d ∧ d ≤ s.body.length ∧ (delivered s).bytes = s.body.take d) ∨
+    (s.frame = .chunked ∧ s.fin = .clean ∧ (delivered s).bytes = s.body) ∨
+    (s.frame = .close ∧ s.fin ≠ .reset ∧ (delivered s).bytes = s.body) := by
+  rcases s with ⟨body, frame, fin⟩
+  cases frame with
+  | length d =>
+    by_cases hd : d ≤ body.length
+    · left; exact ⟨d, rfl, hd, by simp [delivered, hd, Stream.bytes]⟩
+    · simp [delivered, hd] at h
+  | chunked =>
+    by_cases hc : fin = .clean
+    · right; left; exact ⟨rfl, hc, by simp [delivered, Stream.bytes]⟩
+    · simp [delivered, hc] at h
+  | close =>
+    by_cases hc : fin = .reset
+    · simp [delivered, hc] at h
+    · right; right; exact ⟨rfl, hc, by simp [delivered, Stream.bytes]⟩
+
+/-- The full statement "the transport detects every truncation" is false: a
+    close-delimited body cut anywhere and followed by an orderly close, and a
+    body whose Content-Length is (wrongly) short, are delivered as a prefix with
+    a clean EOF.  Detection then rests on the parser and the wrapper. -/
+theorem transport_truncation_undetected_counterexample (d : Bytes) (k : Nat) (fin : Fin) :
+    delivered ⟨d.take k, .close, .close⟩ = ⟨[d.take k], .eof⟩ ∧
+    (k ≤ d.length → delivered ⟨d, .length k, fin⟩ = ⟨[d.take k], .eof⟩) := by
+  constructor
+  · simp [delivered]
+  · intro hk; simp [delivered, hk]
+
+/-- Fetch spools what the transport delivers and fails on any read error:
+    success means a clean EOF and a spool holding exactly the delivered bytes. -/
+theorem fetch_spools_exactly (parse : Stream → Res α) (src : Stream) (r : Res α)
+    (h : fetchParse parse src = (.fetched, r)) :
+    src.term = .eof ∧ r = parse ⟨[src.bytes], .eof⟩ := by
+  unfold fetchParse spool at h
+  by_cases ht : src.term = .eof
+  · rw [if_pos ht] at h
+    simp only [Prod.mk.injEq, true_and] at h
+    exact ⟨ht, h.symm⟩
+  · rw [if_neg ht] at h
+    simp at h
+
+/-- With an honest length (Content-Length of the intact body, or chunked
+    encoding) a body cut anywhere never reaches ANY parser: Fetch fails.  This
+    is what protects the record formats (VEX lines, CSV, enrichment records),
+    which cannot detect a cut at a record boundary themselves. -/
+theorem honest_framing_truncation_fails_fetch (parse : Stream → Res α) (d : Bytes) (k : Nat)
+    (hk : k < d.length) (fin : Fin) :
+    (fetchParse parse (delivered ⟨d.take k, .length d.length, fin⟩)).1 = .failed ∧
+    (fin ≠ .clean → (fetchParse parse (delivered ⟨d.take k, .chunked, fin⟩)).1 = .failed) := by
+  constructor
+  · have : ¬ d.length ≤ min k d.length := by omega
+    simp [fetchParse, spool, delivered, List.length_take, this]
+  · intro hf
+    simp [fetchParse, spool, delivered, hf]
+
+/-- A parser that, on every stream carrying a prefix of the feed `d`, fails or
+    returns the intact result. -/
+def NeverSubset (parse : Stream → Res α) (d : Bytes) : Prop :=
+  ∀ (st : Stream) (k : Nat), st.bytes = d.take k → parse st = .err ∨ parse st = parse ⟨[d], .eof⟩
+
+/-- End to end over the wire, for every response script whose body is a prefix
+    of the intact feed — any framing, any declared length, any way of ending:
+    the store is not touched, or it receives exactly the intact snapshot. -/
+theorem transfer_never_replaces_snapshot (parse : Stream → Res α) (d : Bytes)
+    (hp : NeverSubset parse d) (s : Script) (k : Nat) (hs : s.body = d.take k) :
+    (runTransfer parse (delivered s)).1 = .none ∨
+    (runTransfer parse (delivered s)).1 = (drive .fetched (parse ⟨[d], .eof⟩)).1 := by
+  unfold runTransfer fetchParse spool
+  by_cases ht : (delivered s).term = .eof
+  · rw [if_pos ht]
+    obtain ⟨k', hk'⟩ := delivered_prefix s
+    have hb : (Stream.mk [(delivered s).bytes] Term.eof).bytes = d.take (min k' k) := by
+      rw [bytes_single, hk', hs, List.take_take]
+    rcases hp _ _ hb with h | h
+    · left; simp only [h]; rfl
+    · right; simp only [h]
+  · rw [if_neg ht]; left; rfl
+
+/-- alpine, debian (decode + end-of-input check), ubuntu, oracle, suse, photon
+    (one decode) over the wire. -/
+theorem one_document_transfer_never_subset (step : σ → Byte → Step σ) (init : σ)
+    (sem : Bytes → Option α) (d : Bytes) (s : Script) (k : Nat) (hs : s.body = d.take k) :
+    (runTransfer (decodeOne step init sem) (delivered s)).1 = .none ∨
+    (runTransfer (decodeOne step init sem) (delivered s)).1 =
+      (drive .fetched (decodeOne step init sem ⟨[d], .eof⟩)).1 :=
+  transfer_never_replaces_snapshot _ d
+    (fun st k hst => one_decode_never_subset step init sem d st k hst) s k hs
+
+theorem one_document_end_transfer_never_subset (step : σ → Byte → Step σ) (init : σ)
+    (sem : Bytes → Option α) (d : Bytes) (v : α)
+    (hd : decodeOneEnd step init sem ⟨[d], .eof⟩ = .ok v) (s : Script) (k : Nat)
+    (hs : s.body = d.take k) :
+    (runTransfer (decodeOneEnd step init sem) (delivered s)).1 = .none ∨
+    (runTransfer (decodeOneEnd step init sem) (delivered s)).1 = .update v := by
+  have := transfer_never_replaces_snapshot (decodeOneEnd step init sem) d
+    (fun st k hst => by
+      rcases json_end_never_subset step init sem d v hd st k hst with h | h
+      · exact Or.inl h
+      · exact Or.inr (by rw [h, hd])) s k hs
+  rw [hd] at this
+  exact this
+
+/-- Contract of a decompressor placed between the transport and the spool
+    (ubuntu bzip2; ovalutil gzip | bzip2 | zstd; epss and cvss gzip): fed a
+    prefix of the compressed feed `z` (with any terminal) it delivers a prefix
+    of the plaintext, and a clean EOF only after the whole plaintext.
+    (Observed on the real decompressors for every script of every run.) -/
+structure ExactWrapper (dec : Stream → Stream) (z plain : Bytes) : Prop where
+  eof_complete : ∀ (src : Stream) (k : Nat), src.bytes = z.take k →
+    (dec src).term = .eof → (dec src).bytes = plain
+
+/-- Under that contract a fetch that decompresses while spooling is all or
+    nothing, whatever the parser: over any script whose body is a prefix of the
+    compressed feed, Fetch fails or Parse sees exactly the intact plaintext. -/
+theorem wrapped_fetch_all_or_nothing (parse : Stream → Res α) (dec : Stream → Stream)
+    (z plain : Bytes) (hc : ExactWrapper dec z plain) (s : Script) (k : Nat)
+    (hs : s.body = z.take k) :
+    fetchParse parse (dec (delivered s)) = (.failed, .err) ∨
+    fetchParse parse (dec (delivered s)) = (.fetched, parse ⟨[plain], .eof⟩) := by
+  unfold fetchParse spool
+  by_cases ht : (dec (delivered s)).term = .eof
+  · right
+    rw [if_pos ht]
+    obtain ⟨k', hk'⟩ := delivered_prefix s
+    have hb : (delivered s).bytes = z.take (min k' k) := by rw [hk', hs, List.take_take]
+    rw [hc.eof_complete _ _ hb ht]
+  · left; rw [if_neg ht]
+
+/-- aws: the compressed download is spooled, Parse decompresses, decodes and
+    drains.  Contract of gzip on the spooled bytes: a clean EOF only after the
+    whole plaintext.  Then over any script with a prefix of the compressed
+    feed: Fetch fails, Parse fails, or Parse returns the intact result. -/
+theorem aws_transfer_exact (step : σ → Byte → Step σ) (init : σ) (sem : Bytes → Option α)
+    (hdrOk : Bytes → Bool) (dec : Bytes → Stream) (z plain : Bytes)
+    (hc : ∀ k, (dec (z.take k)).term = .eof → (dec (z.take k)).bytes = plain)
+    (s : Script) (k : Nat) (hs : s.body = z.take k) :
+    (fetchAws hdrOk dec (decodeOneDrain step init sem) (delivered s)).1 = .failed ∨
+    (fetchAws hdrOk dec (decodeOneDrain step init sem) (delivered s)).2 = .err ∨
+    (fetchAws hdrOk dec (decodeOneDrain step init sem) (delivered s)).2 =
+      decodeOneDrain step init sem ⟨[plain], .eof⟩ := by
+  by_cases ht : (delivered s).term = .eof
+  · have e1 : spool (delivered s) = some (delivered s).bytes := by simp [spool, ht]
+    simp only [fetchAws, e1]
+    by_cases hh : hdrOk (delivered s).bytes = true
+    · rw [if_pos hh]
+      right
+      obtain ⟨k', hk'⟩ := delivered_prefix s
+      have hb : (delivered s).bytes = z.take (min k' k) := by rw [hk', hs, List.take_take]
+      simp only
+      rw [hb]
+      cases hr : decodeOneDrain step init sem (dec (z.take (min k' k))) with
+      | err => left; rfl
+      | ok v =>
+        right
+        have hterm := drain_propagates_aws step init sem _ v hr
+        have hbytes := hc _ hterm
+        rw [← hr]
+        unfold decodeOneDrain decodeOne
+        rw [scanChunks_eq, scanChunks_eq]
+        have h1 : (dec (z.take (min k' k))).chunks.flatten = plain := hbytes
+        have h2 : (dec (z.take (min k' k))).bytes = plain := hbytes
+        simp only [h1, h2, hterm, bytes_single, List.flatten_cons, List.flatten_nil, List.append_nil]
+    · left; rw [if_neg hh]
+  · have e1 : spool (delivered s) = none := by simp [spool, ht]
+    left
+    simp only [fetchAws, e1]
+
+/-! ### CSV read loops (epss download, vex changes.csv / deletions.csv) -/
+
+/-- A CSV read loop succeeds only after a clean EOF, in a state in which the
+    file may end (epss: after the header line). -/
+theorem csv_success_needs_clean_eof (h : Handler σ ρ) (init : σ) (st : Stream) (vs : List ρ)
+    (hok : csvLoop h init st = .ok vs) :
+    st.term = .eof ∧ ∃ s, csvFold h init (csvLines st.bytes) = some (s, vs) ∧ h.mayEnd s = true := by
+  unfold csvLoop at hok
+  cases hf : csvFold h init (csvLines st.bytes) with
+  | none => simp [hf] at hok
+  | some p =>
+    rcases p with ⟨s, out⟩
+    simp only [hf] at hok
+    split at hok
+    · rename_i hc
+      simp only [Res.ok.injEq] at hok
+      exact ⟨hc.1, s, by rw [hok], hc.2⟩
+    · simp at hok
+
+/-- A read error (a truncated or corrupt gzip stream under the epss CSV, a
+    reset connection under deletions.csv) always fails the loop. -/
+theorem csv_read_error_detected (h : Handler σ ρ) (init : σ) (chunks : List Bytes) :
+    csvLoop h init ⟨chunks, .err⟩ = .err := by
+  unfold csvLoop
+  cases csvFold h init (csvLines (Stream.mk chunks Term.err).bytes) with
+  | none => rfl
+  | some p => rcases p with ⟨s, out⟩; simp
+
+/-- On any stream carrying a prefix of a valid file: the loop fails, or — after
+    a clean EOF — returns the records of the first lines followed by whatever
+    the unterminated last line yields (`extra`; nothing when the cut is at a
+    line boundary). -/
+theorem csv_prefix_damage (h : Handler σ ρ) (init : σ) (d : Bytes) (vs : List ρ)
+    (hd : csvLoop h init ⟨[d], .eof⟩ = .ok vs) (st : Stream) (k : Nat)
+    (hst : st.bytes = d.take k) :
+    csvLoop h init st = .err ∨
+    ∃ j extra, csvLoop h init st = .ok (vs.take j ++ extra) ∧ st.term = .eof ∧
+      ((splitLines st.bytes).2 = [] → extra = []) := by
+  obtain ⟨_, sF, hF, _⟩ := csv_success_needs_clean_eof h init _ vs hd
+  rw [bytes_single] at hF
+  obtain ⟨more, hm⟩ := csvLines_take d k
+  rw [hm, csvFold_append] at hF
+  unfold csvLoop
+  rw [hst]
+  show (match csvFold h init (csvLines (d.take k)) with
+    | none => Res.err
+    | some (s, out) => if st.term = .eof ∧ h.mayEnd s = true then Res.ok out else Res.err) = Res.err ∨ _
+  unfold csvLines
+  rw [csvFold_append]
+  cases h1 : csvFold h init (splitLines (d.take k)).1 with
+  | none => left; rfl
+  | some p1 =>
+    rcases p1 with ⟨s1, o1⟩
+    rw [h1] at hF
+    simp only at hF ⊢
+    -- o1 is a prefix of vs
+    have ho1 : o1 = vs.take o1.length := by
+      cases h2 : csvFold h s1 more with
+      | none => rw [h2] at hF; simp at hF
+      | some p2 =>
+        rcases p2 with ⟨s2, o2⟩
+        rw [h2] at hF
+        simp only [Option.some.injEq, Prod.mk.injEq] at hF
+        exact take_of_append_eq o1 o2 vs hF.2
+    cases h3 : csvFold h s1 (if (splitLines (d.take k)).2 = [] then [] else [(splitLines (d.take k)).2]) with
+    | none => left; rfl
+    | some p3 =>
+      rcases p3 with ⟨s3, o3⟩
+      simp only
+      by_cases hc : st.term = .eof ∧ h.mayEnd s3 = true
+      · right
+        refine ⟨o1.length, o3, ?_, hc.1, ?_⟩
+        · rw [if_pos hc, ← ho1]
+        · intro hr
+          rw [if_pos hr] at h3
+          simp only [csvFold, Option.some.injEq, Prod.mk.injEq] at h3
+          exact h3.2.symm
+      · left; rw [if_neg hc]
+
+/-- epss: one line yields at most one record. -/
+theorem epss_line_emits_at_most_one (fok : Bytes → Bool) (p p' : EpssPhase) (fs : List Bytes)
+    (out : List (List Bytes)) (h : (epssHandler fok).onRecord p fs = some (p', out)) :
+    out.length ≤ 1 := by
+  cases p <;> simp only [epssHandler] at h <;> (repeat' split at h) <;> simp at h <;>
+    (try (obtain ⟨_, rfl⟩ := h)) <;> simp
+
+/-- The CSV text alone cannot detect a truncation of its last record (the full
+    statement is false for the decompressed epss file): with scores parsed by
+    `floatOk`, a file cut at a record boundary is accepted with fewer records,
+    a cut inside the last score is accepted with a different score, and a cut
+    right after the last comma drops the record silently.
+    (text: "#model_version:v1,score_date:d" / "cve,epss,percentile" / "C1,0.5,0.25" / "C2,0.75,0.5") -/
+theorem epss_csv_truncation_counterexample :
+    let hdr : Bytes := [0x23, 0x6d, 0x6f, 0x64, 0x65, 0x6c, 0x5f, 0x76, 0x65, 0x72, 0x73, 0x69, 0x6f, 0x6e, 0x3a, 0x76, 0x31, 0x2c,
+      0x73, 0x63, 0x6f, 0x72, 0x65, 0x5f, 0x64, 0x61, 0x74, 0x65, 0x3a, 0x64, 10,
+      0x63, 0x76, 0x65, 0x2c, 0x65, 0x70, 0x73, 0x73, 0x2c, 0x70, 0x65, 0x72, 0x63, 0x65, 0x6e, 0x74, 0x69, 0x6c, 0x65, 10]
+    let r1 : Bytes := [0x43, 0x31, 0x2c, 0x30, 0x2e, 0x35, 0x2c, 0x30, 0x2e, 0x32, 0x35, 10]
+    let r2 : Bytes := [0x43, 0x32, 0x2c, 0x30, 0x2e, 0x37, 0x35, 0x2c, 0x30, 0x2e, 0x35, 10]
+    epssCsv floatOk ⟨[hdr ++ r1 ++ r2], .eof⟩ =
+      .ok [[[0x43, 0x31], [0x30, 0x2e, 0x35], [0x30, 0x2e, 0x32, 0x35]], [[0x43, 0x32], [0x30, 0x2e, 0x37, 0x35], [0x30, 0x2e, 0x35]]] ∧
+    epssCsv floatOk ⟨[hdr ++ r1], .eof⟩ = .ok [[[0x43, 0x31], [0x30, 0x2e, 0x35], [0x30, 0x2e, 0x32, 0x35]]] ∧
+    epssCsv floatOk ⟨[hdr ++ r1 ++ r2.take 10], .eof⟩ =
+      .ok [[[0x43, 0x31], [0x30, 0x2e, 0x35], [0x30, 0x2e, 0x32, 0x35]], [[0x43, 0x32], [0x30, 0x2e, 0x37, 0x35], [0x30, 0x2e]]] ∧
+    epssCsv floatOk ⟨[hdr ++ r1 ++ r2.take 8], .eof⟩ = .ok [[[0x43, 0x31], [0x30, 0x2e, 0x35], [0x30, 0x2e, 0x32, 0x35]]] ∧
+    epssCsv floatOk ⟨[hdr ++ r1 ++ r2.take 7], .eof⟩ = .err := by
+  decide
+
+/-- What makes the epss download all or nothing is the gzip layer: under the
+    wrapper contract, over any script whose body is a prefix of the compressed
+    file, FetchEnrichment fails or produces exactly the intact records. -/
+theorem epss_fetch_all_or_nothing (h : Handler σ ρ) (init : σ) (dec : Stream → Stream)
+    (z plain : Bytes) (hc : ExactWrapper dec z plain) (s : Script) (k : Nat)
+    (hs : s.body = z.take k) :
+    csvLoop h init (dec (delivered s)) = .err ∨
+    csvLoop h init (dec (delivered s)) = csvLoop h init ⟨[plain], .eof⟩ := by
+  cases hr : csvLoop h init (dec (delivered s)) with
+  | err => left; rfl
+  | ok vs =>
+    right
+    obtain ⟨hterm, _⟩ := csv_success_needs_clean_eof h init _ vs hr
+    obtain ⟨k', hk'⟩ := delivered_prefix s
+    have hb : (delivered s).bytes = z.take (min k' k) := by rw [hk', hs, List.take_take]
+    have hbytes := hc.eof_complete _ _ hb hterm
+    rw [← hr]
+    unfold csvLoop
+    rw [hbytes, hterm, bytes_single]
+
+/-- vex deletions.csv / changes.csv travel uncompressed: a cut at a record
+    boundary that the transport does not report is accepted with the first
+    records only (finding still-valid-vex-csv); a cut inside a record whose
+    time stamp no longer parses fails. -/
+theorem vex_csv_line_boundary_counterexample :
+    let keep : List Bytes → Option Bool := fun fs =>
+      match fs with
+      | [_, t] => if t.length = 2 then some true else none
+      | _ => none
+    -- "a,t1" / "b,t2"
+    vexCsv keep ⟨[[0x61, 0x2c, 0x74, 0x31, 10, 0x62, 0x2c, 0x74, 0x32, 10]], .eof⟩ =
+      .ok [[[0x61], [0x74, 0x31]], [[0x62], [0x74, 0x32]]] ∧
+    vexCsv keep ⟨[[0x61, 0x2c, 0x74, 0x31, 10]], .eof⟩ = .ok [[[0x61], [0x74, 0x31]]] ∧
+    vexCsv keep ⟨[[0x61, 0x2c, 0x74, 0x31, 10, 0x62, 0x2c, 0x74]], .eof⟩ = .err ∧
+    vexCsv keep ⟨[[0x61, 0x2c, 0x74, 0x31, 10]], .err⟩ = .err := by
+  decide
+
+/-! ### successive runs: fingerprints -/
+
+/-- A failed run (fetch or parse) leaves the stored update and its fingerprint
+    untouched and asks nothing of the store. -/
+theorem failed_run_keeps_state (s : HistState α) (r : RunIn α)
+    (h : r.outcome = .fetchFailed ∨ r.outcome = .parseFailed) :
+    (histStep s r).1 = s ∧ (histStep s r).2.1 = .none := by
+  unfold histStep
+  by_cases hu : isUnchanged s r.version = true
+  · rw [if_pos hu]; exact ⟨rfl, rfl⟩
+  · rw [if_neg hu]
+    rcases h with h | h <;> rw [h] <;> exact ⟨rfl, rfl⟩
+
+/-- If every download that parses yields the intact snapshot of the version
+    served (what the per-parser theorems establish for damaged transfers),
+    then over every history of runs — intact, damaged, unchanged, in any order —
+    the stored snapshot is the intact snapshot of the version its fingerprint
+    names: a damaged download is never stored, and never poisons the fingerprint. -/
+theorem history_snapshot_is_intact (intact : Nat → α) (runs : List (RunIn α))
+    (hr : ∀ r ∈ runs, ∀ v, r.outcome = .parsed v → v = intact r.version) :
+    match Sm.run histStep (none : HistState α) runs with
+    | none => True
+    | some (ver, snap) => snap = intact ver := by
+  have key : ∀ (rs : List (RunIn α)) (s : HistState α),
+      (∀ r ∈ rs, ∀ v, r.outcome = .parsed v → v = intact r.version) →
+      (match s with | none => True | some (ver, snap) => snap = intact ver) →
+      (match Sm.run histStep s rs with | none => True | some (ver, snap) => snap = intact ver) := by
+    intro rs
+    induction rs with
+    | nil => intro s _ hs; exact hs
+    | cons r rs ih =>
+      intro s hrs hs
+      simp only [Sm.run]
+      apply ih
+      · exact fun r' hr' => hrs r' (List.mem_cons_of_mem _ hr')
+      · unfold histStep
+        by_cases hu : isUnchanged s r.version = true
+        · rw [if_pos hu]; exact hs
+        · rw [if_neg hu]
+          cases ho : r.outcome with
+          | fetchFailed => exact hs
+          | parseFailed => exact hs
+          | parsed v => exact hrs r (List.mem_cons_self) v ho
+  exact key runs none hr trivial
+
+/-- No sticky failure: after any history, a run that serves version `ver`
+    intact leaves the store holding `ver` (already, or by this run's update). -/
+theorem intact_run_stores (s : HistState α) (ver : Nat) (v : α) :
+    ((histStep s ⟨ver, .parsed v⟩).1 = some (ver, v) ∧ (histStep s ⟨ver, .parsed v⟩).2 = (.update v, true)) ∨
+    (∃ v', s = some (ver, v') ∧ (histStep s ⟨ver, .parsed v⟩).1 = s ∧ (histStep s ⟨ver, .parsed v⟩).2 = (.none, true)) := by
+  unfold histStep
+  by_cases hu : isUnchanged s ver = true
+  · right
+    rw [if_pos hu]
+    cases s with
+    | none => simp [isUnchanged] at hu
+    | some p =>
+      rcases p with ⟨ver', v'⟩
+      simp only [isUnchanged, beq_iff_eq] at hu
+      subst hu
+      exact ⟨v', rfl, rfl, rfl⟩
+  · left
+    rw [if_neg hu]
+    exact ⟨rfl, rfl⟩
+
+end transfer
 
 /-! ### hypotheses are satisfiable -/
 
